@@ -90,6 +90,12 @@ type State struct {
 	ExitCode  *smt.Term
 	Trace     []string
 	MapPerm   bool
+	// command-line tool model (C17)
+	CLIFlags  map[string]Value  // flag name -> value set by the harness
+	CLIArgs   []string          // positional arguments
+	CLIFiles  map[string]string // file name -> content
+	CLIStdout []Value           // *StrV chunks printed to standard output
+	CLIExit   int               // -1: not exited; otherwise the os.Exit status
 	SharedWrites []string // package-level variables written after initialisation
 	FeasLen   int  // length of PC when the path condition was last found satisfiable
 	Forked    bool // some symbolic branch or split has been taken on this path
@@ -152,6 +158,20 @@ func (s *State) Clone() *State {
 	}
 	n.Trace = append([]string(nil), s.Trace...)
 	n.SharedWrites = append([]string(nil), s.SharedWrites...)
+	if s.CLIFlags != nil {
+		n.CLIFlags = make(map[string]Value, len(s.CLIFlags))
+		for k, v := range s.CLIFlags {
+			n.CLIFlags[k] = v
+		}
+	}
+	if s.CLIFiles != nil {
+		n.CLIFiles = make(map[string]string, len(s.CLIFiles))
+		for k, v := range s.CLIFiles {
+			n.CLIFiles[k] = v
+		}
+	}
+	n.CLIArgs = append([]string(nil), s.CLIArgs...)
+	n.CLIStdout = append([]Value(nil), s.CLIStdout...)
 	n.StateFnCt = make(map[string]int, len(s.StateFnCt))
 	for k, v := range s.StateFnCt {
 		n.StateFnCt[k] = v
